@@ -36,7 +36,8 @@ func parse[N Node](ps *parser, n N) parsed[N] {
 	n.n().From = begin
 	n.parse(ps)
 	n.n().To = ps.pos
-	n.n().sourceText = ps.src[begin:ps.pos]
+	// n.parse may move From backwards (Redir does, to cover its Left part).
+	n.n().sourceText = ps.src[n.n().From:ps.pos]
 	return parsed[N]{n}
 }
 
